@@ -324,6 +324,72 @@ def batchSample (O : GOps G) (bits limbs n : Nat) (base : G) (scalarAt : Nat →
   let tbl := baseTable O base (1 <<< (maxC - 1))
   idx.map (fun i => batchOne O c tbl (partitionScalar bits limbs c (scalarAt i)))
 
+/-! ### window-boundary batches (op `batchwin`)
+
+A same-base batch whose scalars are GIVEN BY THEIR WINDOWS of a width `w` chosen on the line (the generator takes the width
+the cost model selects for the batch length, for every width it can select): every window below the top one takes a value
+of `{0, 1, 2^(w−1)−1, 2^(w−1), 2^(w−1)+1, 2^w−1}` or a hashed one, the window below the top one runs through the six
+boundary values (index `i + 2⌊i/9⌋ mod 6`: "no carry" / "carry into the top window" alternate with `i`, flip between `i` and
+`i + 9`, and 54 consecutive `i` see every pair), the top window runs (index `i mod 9`) through the boundary values,
+`⌊r / 2^(w(nb−1))⌋ − 1`, `… − 2` and a hashed value, clipped to `⌊r / 2^(w(nb−1))⌋ − 1` so that the scalar is reduced
+(`C03_winScalar_lt`). A sample of the entries is answered; the table of the model is evaluated lazily (`lazyTable`: the same
+values as `baseTable`, `C03_batchSampleWin`). -/
+
+/-- splitmix64 finaliser (uint64 arithmetic) -/
+def mix64 (x : Nat) : Nat :=
+  let x := x % 2 ^ 64
+  let x := ((x ^^^ (x >>> 30)) * 0xBF58476D1CE4E5B9) % 2 ^ 64
+  let x := ((x ^^^ (x >>> 27)) * 0x94D049BB133111EB) % 2 ^ 64
+  x ^^^ (x >>> 31)
+
+def winHash (seed i j : Nat) : Nat := mix64 (seed + i * 0x9E3779B97F4A7C15 + j * 0xD1B54A32D192ED03 + 1)
+
+/-- boundary values of a `w`-bit window, alternating "below 2^(w−1)" (no carry out) / "at least 2^(w−1)" (carry out) -/
+def winBoundary (w k : Nat) : Nat :=
+  [0, 2 ^ w - 1, 1, 2 ^ (w - 1), 2 ^ (w - 1) - 1, 2 ^ (w - 1) + 1].getD k 0
+
+/-- raw window `j` of scalar `i` of the family (`nb` windows of `w` bits, `topR = ⌊r / 2^(w(nb−1))⌋`) -/
+def winDigit (w nb topR seed i j : Nat) : Nat :=
+  let h := winHash seed i j
+  if j + 1 = nb then
+    let t := [0, 1, 2 ^ (w - 1) - 1, 2 ^ (w - 1), 2 ^ (w - 1) + 1, 2 ^ w - 1, topR - 1, topR - 2, h % 2 ^ w].getD (i % 9) 0
+    if t < topR - 1 then t else topR - 1
+  else if j + 2 = nb then winBoundary w ((i + 2 * (i / 9)) % 6) % 2 ^ w
+  else (if h % 8 < 6 then winBoundary w (h % 8) else (h / 8)) % 2 ^ w
+
+/-- `Σ_{j<m} d j · 2^(w·j)` -/
+def winSum (w : Nat) (d : Nat → Nat) : Nat → Nat
+  | 0 => 0
+  | m+1 => winSum w d m + d m * 2 ^ (w * m)
+
+/-- scalar `i` of the family for an order `r` of `bits` bits -/
+def winScalar (bits r w seed i : Nat) : Nat :=
+  let nb := computeNbChunks bits w
+  winSum w (winDigit w nb (r / 2 ^ (w * (nb - 1))) seed i) nb
+
+/-- `baseTable` evaluated on demand: entry `k < T` is `[k+1]base` (by `mulWindowed`), the default of `getD` beyond -/
+def lazyTable (O : GOps G) (base : G) (T k : Nat) : G :=
+  if k < T then mulWindowed O (Int.ofNat (k + 1)) base else O.zero
+
+def addDigitF (O : GOps G) (tbl : Nat → G) (p : G) (digit : Nat) : G :=
+  if digit = 0 then p
+  else if digit &&& 1 = 0 then O.add p (tbl ((digit >>> 1) - 1))
+  else O.add p (O.neg (tbl (digit >>> 1)))
+
+def batchStepF (O : GOps G) (c : Nat) (tbl : Nat → G) (digits : List Nat) (p : G) (chunk : Nat) : G :=
+  let p := if chunk ≠ digits.length - 1 then dblN O c p else p
+  addDigitF O tbl p (digits.getD chunk 0)
+
+/-- `batchOne` with the table given as a function of the index -/
+def batchOneF (O : GOps G) (c : Nat) (tbl : Nat → G) (digits : List Nat) : G :=
+  (List.range digits.length).reverse.foldl (batchStepF O c tbl digits) O.zero
+
+/-- `batchSample` with the lazily evaluated table -/
+def batchSampleWin (O : GOps G) (bits limbs n : Nat) (base : G) (scalarAt : Nat → Nat) (idx : List Nat) : List G :=
+  let c := bestC bits n
+  let maxC := if c > lastC bits c then c else lastC bits c
+  idx.map (fun i => batchOneF O c (lazyTable O base (1 <<< (maxC - 1))) (partitionScalar bits limbs c (scalarAt i)))
+
 /-! ### twisted Edwards `scalarMulWindowed` (double-and-add over the 64-bit words of |s|) -/
 
 def teStep (O : GOps G) (p : G) (w : Nat) (res : G) (k : Nat) : G :=
@@ -496,6 +562,22 @@ def runCurve {α : Type} (D : FieldDesc α) (op variant : String) (args : List S
           let want := idx.map (fun i => expected C (Int.ofNat (scalarAt i) * ee))
           if (got.zip want).any (fun gw => !(C.E.beq gw.1 gw.2)) then "model-mismatch:batchScalarMul" else
           if want.isEmpty then "-" else " ".intercalate (want.map C.E.showPt)
+      | "batchwin", [e, P, n, w, seed, m, idxs] =>
+        match ctxPoint D C e P with
+        | none => "bad-point"
+        | some (ee, p) =>
+          let n := parseHexD n; let w := parseHexD w; let seed := parseHexD seed; let m := parseHexD m
+          let idx := parseScalars idxs
+          if n > 2 ^ 17 || idx.any (· ≥ n) || w < 2 || w > 16 || seed ≥ 2 ^ 64 then "bad-op" else
+          let bits := bitLen C.r
+          let limbs := (bits + 63) / 64
+          let scalarAt (i : Nat) : Nat := winScalar bits C.r w seed i
+          if idx.any (fun i => scalarAt i ≥ C.r) then "bad-scalar" else
+          -- the hand model (lazily evaluated table) on the first `m` entries of the sample, the specification value on all
+          let got := batchSampleWin O bits limbs n p scalarAt (idx.take m)
+          let want := idx.map (fun i => expected C (Int.ofNat (scalarAt i) * ee))
+          if (got.zip want).any (fun gw => !(C.E.beq gw.1 gw.2)) then "model-mismatch:batchScalarMul" else
+          if want.isEmpty then "-" else " ".intercalate (want.map C.E.showPt)
       | _, _ => "bad-op"
   | _ => "bad-op"
 
@@ -553,7 +635,7 @@ def handle (args : List String) : String :=
     if ["aff", "proj", "ext"].contains variant then runTE false true rest else "bad-op"
   | "tecurve" :: _ :: _curve :: rest => runTE true false rest
   | op :: variant :: _curve :: _grp :: fld :: rest =>
-    if !(["curve", "sm", "smx", "joint", "jointbig", "jointx", "batch", "batchpow"].contains op) then "bad-op" else
+    if !(["curve", "sm", "smx", "joint", "jointbig", "jointx", "batch", "batchpow", "batchwin"].contains op) then "bad-op" else
     match splitOn fld ':' with
     | ["fp", p] => runCurve (fdFp (parseHexD p)) op variant rest
     | ["fp2", p, β] => runCurve (fdFp2 (parseHexD p) (parseHexD β)) op variant rest
